@@ -860,13 +860,19 @@ impl<'a, 'input: 'a> FromValue<'a, 'input> for &'a str {
 
 impl<'a, 'input: 'a> FromValue<'a, 'input> for f32 {
     fn parse(_: SvgNode, _: AId, value: &str) -> Option<Self> {
-        svgtypes::Number::from_str(value).ok().map(|v| v.0 as f32)
+        // A number that does not fit into `f32` is invalid.
+        svgtypes::Number::from_str(value)
+            .ok()
+            .map(|v| v.0 as f32)
+            .filter(|n| n.is_finite())
     }
 }
 
 impl<'a, 'input: 'a> FromValue<'a, 'input> for svgtypes::Length {
     fn parse(_: SvgNode, _: AId, value: &str) -> Option<Self> {
-        svgtypes::Length::from_str(value).ok()
+        svgtypes::Length::from_str(value)
+            .ok()
+            .filter(|n| (n.number as f32).is_finite())
     }
 }
 
@@ -970,7 +976,11 @@ impl<'a, 'input: 'a> FromValue<'a, 'input> for Vec<f32> {
     fn parse(_: SvgNode, _: AId, value: &str) -> Option<Self> {
         let mut list = Vec::new();
         for n in svgtypes::NumberListParser::from(value) {
-            list.push(n.ok()? as f32);
+            let n = n.ok()? as f32;
+            if !n.is_finite() {
+                return None;
+            }
+            list.push(n);
         }
 
         Some(list)
@@ -981,7 +991,11 @@ impl<'a, 'input: 'a> FromValue<'a, 'input> for Vec<svgtypes::Length> {
     fn parse(_: SvgNode, _: AId, value: &str) -> Option<Self> {
         let mut list = Vec::new();
         for n in svgtypes::LengthListParser::from(value) {
-            list.push(n.ok()?);
+            let n = n.ok()?;
+            if !(n.number as f32).is_finite() {
+                return None;
+            }
+            list.push(n);
         }
 
         Some(list)
